@@ -43,6 +43,9 @@ type inst struct {
 	CQT  imat    `json:"CQT"`
 	CR   imat    `json:"CR"`
 	Qidx []int   `json:"qidx"`
+	Nf   int     `json:"nf"`
+	Jin  []int   `json:"jin"`
+	Jpvt []int   `json:"jpvt"`
 	Tau  []int64 `json:"tau"`
 	T    imat    `json:"T"`
 	// workspace contract
